@@ -36,6 +36,10 @@ pub enum BitContent {
     Groups { groups: Vec<Group>, complement: bool, lead: u16, tail: u16, seed: u64 },
     /// the count of ones crosses k * period by delta (k*period - 1, +0, +1), zeros likewise if `zeros`
     CountCross { period: usize, k: u8, delta: i8, gap_lg: u8, zeros: bool, seed: u64 },
+    /// `before` set bits with small gaps, then `gap` clear bits, then `after` set bits; `before` sits
+    /// at a multiple of a hint period +-1 (select hints recorded one occurrence early / late only
+    /// show when whole blocks without a set bit follow); complemented if `zeros`
+    GapAfterCount { period: usize, k: u8, delta: i8, gap: u32, after: u16, zeros: bool, seed: u64 },
 }
 
 impl BitContent {
@@ -144,6 +148,30 @@ impl BitContent {
                 }
                 v
             }
+            BitContent::GapAfterCount { period, k, delta, gap, after, zeros, seed } => {
+                let mut r = Rng::new(*seed);
+                let before = ((*period * (*k as usize).max(1)) as i64 + *delta as i64).max(1) as usize;
+                let mut v = Vec::new();
+                for _ in 0..before {
+                    for _ in 0..r.below_usize(3) {
+                        v.push(false);
+                    }
+                    v.push(true);
+                }
+                v.extend(std::iter::repeat(false).take(*gap as usize));
+                for _ in 0..*after {
+                    v.push(true);
+                    for _ in 0..r.below_usize(5) {
+                        v.push(false);
+                    }
+                }
+                if *zeros {
+                    for b in v.iter_mut() {
+                        *b = !*b;
+                    }
+                }
+                v
+            }
             BitContent::CountCross { period, k, delta, gap_lg, zeros, seed } => {
                 let mut r = Rng::new(*seed);
                 let target = ((*period * (*k as usize).max(1)) as i64 + *delta as i64).max(0) as usize;
@@ -189,7 +217,9 @@ pub fn groups_content(max_groups: usize) -> BoxedStrategy<BitContent> {
         .prop_map(|(count, law)| Group { count, law });
     (
         proptest::collection::vec(group, 1..=max_groups),
-        (1u16..=1024, law()).prop_map(|(count, law)| Group { count, law }),
+        (prop_oneof![2 => 1u16..=1024, 2 => (0u16..32).prop_map(|m| 32 * m + 1), 1 => (1u16..32).prop_map(|m| 32 * m)],
+         prop_oneof![3 => law(), 2 => prop_oneof![Just(65535u32), Just(65536), Just(65534), Just(65537)].prop_map(Law::Span)])
+            .prop_map(|(count, law)| Group { count, law }),
         any::<bool>(),
         prop_oneof![Just(0u16), 0u16..700],
         prop_oneof![Just(0u16), 0u16..700],
@@ -251,6 +281,8 @@ pub fn recipe_bits(lo: usize, hi: usize) -> BoxedStrategy<BitContent> {
             .prop_map(|(n, zero_lg, one_lg, seed)| BitContent::Runs { n, zero_lg, one_lg, seed }),
         2 => (n, prop_oneof![Just(64usize), Just(512), Just(4096), Just(32768)], any::<u64>())
             .prop_map(|(n, block, seed)| BitContent::Blocks { n, block, seed }),
+        2 => (prop_oneof![Just(1024usize), Just(8192)], 1u8..=3, -2i8..=1, prop_oneof![Just(4096u32), Just(8192), Just(12288), 512u32..40_000], 1u16..2000, any::<bool>(), any::<u64>())
+            .prop_map(|(period, k, delta, gap, after, zeros, seed)| BitContent::GapAfterCount { period, k, delta, gap, after, zeros, seed }),
         3 => (prop_oneof![Just(1024usize), Just(8192)], 1u8..=12, -1i8..=1, 0u8..=6, any::<bool>(), any::<u64>())
             .prop_map(move |(period, k, delta, gap_lg, zeros, seed)| {
                 // keep the vector within hi bits
